@@ -80,5 +80,27 @@ PROPS["C15"] = {
     "note": "scope objects' name tables are abstract (names_of); the parent chain is finite (termination assumed); ast.arguments fields as declared records.",
     "undecided": ["name tables built by the scope visitors for every module (bounded only)", "holding-scope computation from line numbers"],
 }
+PROPS["C01"] = {
+    "sidecars": ["c01_collector.py", "c02_search.py"],
+    "level": "proof",
+    "claim": "Proof level for the text-edit kernel every rename goes through: ChangeCollector.get_changed returns the text with exactly the sorted, non-overlapping "
+             "edit ranges replaced -- length, every kept gap, every replacement and the tail are pinned position by position (loop invariant over a ghost offset "
+             "table, lemmas by induction) -- for every text and every edit list; and the whole-word scanner reports exactly the whole-word occurrences.  "
+             "Alpha-equivalence and same-output of whole renames are bounded stand-ins on a fixed program catalogue (not counted as proved).",
+    "note": "list.sort modelled as an uninterpreted sorted_key2(list) of equal length ascending in (start, end) (permutation not encoded); ''.join by its two defining "
+            "axioms; strings over z3/cvc5 sequence theory; the non-overlap precondition is discharged by callers only through the finder contract.",
+    "undecided": ["binding analysis (which tokens are occurrences) for all programs", "module/package renames", "behaviour for all inputs"],
+}
+PROPS["C02"] = {
+    "sidecars": ["c02_search.py"],
+    "level": "proof",
+    "claim": "Proof level for the textual layer: _TextualFinder._normal_search yields exactly the positions where the name occurs delimited by non-identifier "
+             "characters, strictly increasing, none missing (gap formulation of completeness; the skip `current = found + len(name)` is justified by an exported "
+             "lemma) -- for every source text and every identifier.  Exactness of the binding filter (same definition) is a bounded stand-in against a "
+             "reference binder on a fixed catalogue.",
+    "note": "str.index modelled by its defining property (least occurrence at or after the start); isalnum uninterpreted (any Unicode classification); "
+            "the regex-based _re_search (strings/comments skipped) is not under contract.",
+    "undecided": ["regex search vs tokenizer", "pyname identity filter for all programs", "cross-module completeness for all projects"],
+}
 _NB = "check not built yet (framework under construction; see DESIGN.md section 8)"
 NOT_APPLICABLE = {"C%02d" % i: _NB for i in range(1, 21)}
